@@ -157,6 +157,34 @@ def run_alloc(args, fd):
                         pass
             emit(fd, "KTHRES", w, kth, int(lib.hyverif_nalloc()),
                  int(lib.hyverif_live()))
+    # ---- resource limit: the same kernels on worker threads with a small
+    # stack and ensembles of many members (work space must not be taken from
+    # the stack in proportion to the input)
+    import threading
+    for w in args["workloads"][:2]:
+        for stack_kb, m in ((512, 30000), (1024, 60000)):
+            rs = np.random.RandomState(w + 17)
+            ens = np.exp(rs.normal(0, 1, (2, m)))
+            obs = np.exp(rs.normal(0, 1, 2))
+            for fn in ("dscore", "crps"):
+                emit(fd, "STACK", w, fn, stack_kb, m)
+                lib.hyverif_arm(0, -1)
+                out = []
+
+                def work():
+                    with warnings.catch_warnings(), np.errstate(all="ignore"):
+                        warnings.simplefilter("ignore")
+                        try:
+                            getattr(metrics, fn)(obs, ens)
+                            out.append("returned")
+                        except Exception as ex:
+                            out.append("raise:" + type(ex).__name__)
+                old = threading.stack_size(stack_kb * 1024)
+                t = threading.Thread(target=work)
+                t.start()
+                t.join()
+                threading.stack_size(old)
+                emit(fd, "STACKRES", w, fn, stack_kb, m, out[0] if out else "?")
     emit(fd, "ALLOCDONE")
 
 
